@@ -183,7 +183,7 @@ static const char *kCounterNames[] = {
     "spurious_wake", "stall", "time_jump_idle", "time_adv_busy", "clock_jump", "threads_created",
     "pthread_cancel", "yield_hook", "yield_harness", "fair_override", "fs_open", "fs_write", "fs_rename",
     "fs_link", "fs_unlink", "fs_trunc", "fs_errno_injected", "fs_short_write", "fs_eintr", "fs_boundary",
-    "yield_clock_read", "fs_write_refused", "yield_file_io"
+    "yield_clock_read", "fs_write_refused", "yield_file_io", "yield_function_entry"
 };
 
 static int cmd_batch(int argc, char **argv)
